@@ -1,32 +1,22 @@
-import KdVerif.Model.Kevent
-import KdVerif.Gen.Consts
+import Driver.Cmd.Kevent
+import Driver.Cmd.Pairing
 /-
   Line-protocol driver: one operation per line on stdin, one canonical answer per line on
   stdout.  Byte strings and texts travel as hex.  Imports no Mathlib (so it links).
+  Each `Driver/Cmd/*.lean` exports `commands : List (String × Cmd)`.
 -/
-open KdVerif
+open Driver
 
-def natList (l : List Nat) : String := " ".intercalate (l.map toString)
-
-def showKevent (e : Kevent) : String :=
-  s!"ok {e.timestamp} {toHex e.data} {natList e.values} {e.tid} {e.debugid} {e.eventid} {e.qual}"
-
-def cmdKevent (args : List String) : String :=
-  match args with
-  | [h] =>
-    match ofHex h with
-    | none => "bad-op"
-    | some bs =>
-      match decodeWith Gen.Consts.kdBufFormat Gen.Consts.eventidMask Gen.Consts.funcMask bs with
-      | .ok e => showKevent e
-      | .error err => s!"err {err.name}"
-  | _ => "bad-op"
+def allCommands : List (String × Cmd) :=
+  Driver.Kevent.commands ++ Driver.Pairing.commands
 
 def dispatch (line : String) : String :=
   match (line.trimAscii.toString.splitOn " ").filter (· ≠ "") with
-  | "kevent" :: args => cmdKevent args
-  | "kevent-empty" :: _ => cmdKevent [""]
-  | _ => "bad-op"
+  | c :: args =>
+    match allCommands.lookup c with
+    | some f => f args
+    | none => "bad-op"
+  | [] => "bad-op"
 
 partial def loop (h : IO.FS.Stream) (out : IO.FS.Stream) : IO Unit := do
   let line ← h.getLine
